@@ -11,6 +11,9 @@
      [t |-> "raw", c]  the character itself     [t |-> "ent", c]  a predefined entity
      [t |-> "cref", c] a numeric character reference; c = "repl" is the replacement character
 
+   Indentation white space that the writer inserts between elements of element-only content is abstracted
+   away (the harness drops white-space-only text where no text is expected).
+
    Abstract property (Faithful / WellFormed): after the stream is closed the token sequence parses, by the
    XML grammar, into exactly the events implied by the calls, where a character of a representable class
    decodes to itself and an unrepresentable one to the replacement character. *)
@@ -19,7 +22,9 @@ EXTENDS Integers, Sequences, FiniteSets, TLC
 CONSTANTS Names,       \* element names offered
           AttrVals,    \* attribute value strings offered (sequences of classes)
           Texts,       \* text strings offered
-          MaxCalls
+          MaxCalls,
+          F7           \* TRUE: model the implementation's known deviation (finding F7): a character XML cannot
+                       \* represent is written as a numeric reference to itself, which no parser accepts
 
 Representable(c) == c \notin {"ctl", "nonchar"}
 (* XmlStream._encode *)
@@ -27,7 +32,8 @@ Encode(c) == CASE c = "plain" -> [t |-> "raw", c |-> c]
                [] c \in {"markup", "quote"} -> [t |-> "ent", c |-> c]
                [] c = "ws" -> [t |-> "cref", c |-> c]
                [] c = "nonascii" -> [t |-> "cref", c |-> c]
-               [] OTHER -> [t |-> "cref", c |-> "repl"]            \* not an XML character: replaced
+               [] OTHER -> IF F7 THEN [t |-> "cref", c |-> c]            \* &#001; : illegal reference (finding F7)
+                           ELSE [t |-> "cref", c |-> "repl"]       \* not an XML character: replaced
 EncodeStr(s) == [i \in 1..Len(s) |-> Encode(s[i])]
 (* what an XML parser makes of a token *)
 TokenLegal(tok) == /\ tok.t \in {"raw", "ent", "cref"}
@@ -42,10 +48,11 @@ VARIABLES stk,      \* open element names, innermost last
           expect,   \* the events the calls imply: <<"start", name, attrs>>, <<"chars", classes>>, <<"end", name>>
           calls,    \* number of API calls made
           state,    \* "new" | "open" | "closed"
-          raised    \* the last call raised (endElement on empty stack / mismatch)
-vars == <<stk, inElem, out, expect, calls, state, raised>>
+          raised,   \* the last call raised (endElement on empty stack / mismatch)
+          hist      \* the calls made, for replay on the real class (identical information to out + raised calls)
+vars == <<stk, inElem, out, expect, calls, state, raised, hist>>
 
-Init == stk = <<>> /\ inElem = FALSE /\ out = <<>> /\ expect = <<>> /\ calls = 0 /\ state = "new" /\ raised = FALSE
+Init == stk = <<>> /\ inElem = FALSE /\ out = <<>> /\ expect = <<>> /\ calls = 0 /\ state = "new" /\ raised = FALSE /\ hist = <<>>
 
 CloseIfOpen(o) == IF inElem THEN Append(o, [k |-> "gt"]) ELSE o
 AddChars(ex, s) == IF s = <<>> THEN ex
@@ -54,7 +61,7 @@ AddChars(ex, s) == IF s = <<>> THEN ex
                         ELSE Append(ex, <<"chars", Meaning(s)>>)
 
 Enter == /\ state = "new" /\ state' = "open" /\ out' = <<[k |-> "decl"]>>
-         /\ UNCHANGED <<stk, inElem, expect, calls, raised>>
+         /\ UNCHANGED <<stk, inElem, expect, calls, raised, hist>>
 
 StartElement(n, hasAttr, v) ==
     /\ state = "open" /\ calls < MaxCalls /\ (stk = <<>> => expect = <<>>)        \* one root element
@@ -62,20 +69,24 @@ StartElement(n, hasAttr, v) ==
                                         attrs |-> IF hasAttr THEN <<[key |-> "a", val |-> EncodeStr(v)]>> ELSE <<>>])
     /\ expect' = Append(expect, <<"start", n, IF hasAttr THEN <<[key |-> "a", val |-> Meaning(v)]>> ELSE <<>>>>)
     /\ stk' = Append(stk, n) /\ inElem' = TRUE /\ calls' = calls + 1 /\ raised' = FALSE /\ UNCHANGED state
+    /\ hist' = Append(hist, [op |-> "start", name |-> n, hasAttr |-> hasAttr, v |-> v])
 
 Characters(s) ==
     /\ state = "open" /\ calls < MaxCalls /\ stk # <<>>
     /\ out' = Append(CloseIfOpen(out), [k |-> "text", toks |-> EncodeStr(s)])
     /\ expect' = AddChars(expect, s)
     /\ inElem' = FALSE /\ calls' = calls + 1 /\ raised' = FALSE /\ UNCHANGED <<stk, state>>
+    /\ hist' = Append(hist, [op |-> "chars", s |-> s])
 
 Comment(s) ==
     /\ state = "open" /\ calls < MaxCalls /\ stk # <<>>
     /\ out' = Append(CloseIfOpen(out), [k |-> "comment", toks |-> EncodeStr(s)])
     /\ inElem' = FALSE /\ calls' = calls + 1 /\ raised' = FALSE /\ UNCHANGED <<stk, state, expect>>
+    /\ hist' = Append(hist, [op |-> "comment", s |-> s])
 
 EndElement(n) ==
     /\ state = "open" /\ calls < MaxCalls
+    /\ hist' = Append(hist, [op |-> "end", name |-> n])
     /\ IF stk = <<>> \/ stk[Len(stk)] # n
        THEN raised' = TRUE /\ calls' = calls + 1 /\ UNCHANGED <<stk, inElem, out, expect, state>>
        ELSE /\ out' = IF inElem THEN Append(out, [k |-> "selfclose"]) ELSE Append(out, [k |-> "close", name |-> n])
@@ -92,7 +103,7 @@ CloseAll(s, ie, o, ex) ==
                   Append(ex, <<"end", s[Len(s)]>>))
 Exit == /\ state = "open" /\ expect # <<>>
         /\ LET c == CloseAll(stk, inElem, out, expect) IN out' = c.out /\ expect' = c.expect
-        /\ stk' = <<>> /\ inElem' = FALSE /\ state' = "closed" /\ UNCHANGED <<calls, raised>>
+        /\ stk' = <<>> /\ inElem' = FALSE /\ state' = "closed" /\ UNCHANGED <<calls, raised, hist>>
 
 Next == \/ Enter \/ Exit
         \/ \E n \in Names : EndElement(n)
